@@ -88,6 +88,8 @@ class SimSocket:
         self.rx_total = 0             # bytes ever appended towards me (peer side: full stream)
         self.rx_log = bytearray()     # peer side: everything the other end successfully sent me
         self.accepted = False
+        self.sh_hdr = None
+        self.sh_need = 0
         self.tag = None               # harness label (actor name)
 
     # identity -----------------------------------------------------------------
@@ -265,14 +267,21 @@ class SimSocket:
         data = bytes(data)
         net = self.net
         peer = self.peer
+        if self.side == "mgr":
+            # shadow parser over every attempted write (successful or not): which frame is this?
+            if self.sh_need <= 0 and len(data) == net.hs:
+                self.sh_hdr = unpack_hdr(net.timecode, data)
+                self.sh_need = max(0, self.sh_hdr.num_data_bytes)
+            else:
+                self.sh_need -= len(data)
         # 1. an RST has already reached me
         if self.rx_rst == 2:
             self.write_failed = True
             if not self.rst_reported:
                 self.rst_reported = True
-                net.on_write_fail(self, 0, "ECONNRESET")
+                net.on_write_fail(self, 0, "ECONNRESET", data)
                 raise ConnectionResetError(errno.ECONNRESET, "Connection reset by peer")
-            net.on_write_fail(self, 0, "EPIPE")
+            net.on_write_fail(self, 0, "EPIPE", data)
             raise BrokenPipeError(errno.EPIPE, "Broken pipe")
         # 2. the peer is gone but I may not know yet
         if peer.closed:
@@ -290,7 +299,7 @@ class SimSocket:
                 return None
             self.write_failed = True
             self.rst_reported = True
-            net.on_write_fail(self, 0, "EPIPE")
+            net.on_write_fail(self, 0, "EPIPE", data)
             raise BrokenPipeError(errno.EPIPE, "Broken pipe")
         # 3. armed fault: the peer dies after k more bytes
         if self.fault_after is not None:
@@ -305,10 +314,10 @@ class SimSocket:
                 self.arrive_rst_now() if kind == "rst" else None
                 if kind == "rst":
                     self.rst_reported = True
-                    net.on_write_fail(self, k, "ECONNRESET")
+                    net.on_write_fail(self, k, "ECONNRESET", data)
                     raise ConnectionResetError(errno.ECONNRESET, "Connection reset by peer")
                 self.rst_reported = True
-                net.on_write_fail(self, k, "EPIPE")
+                net.on_write_fail(self, k, "EPIPE", data)
                 raise BrokenPipeError(errno.EPIPE, "Broken pipe")
             self.fault_after = k - len(data)
         net.deliver_to(self, peer, data)
@@ -511,11 +520,15 @@ class SimNet:
             self.writes.append(fr)
             self.stats["frames_written"] += 1
 
-    def on_write_fail(self, sock: SimSocket, delivered: int, err: str):
+    def on_write_fail(self, sock: SimSocket, delivered: int, err: str, data: bytes = b""):
+        # which frame was being written?
+        mt, tag = None, None
+        if sock.side == "mgr" and sock.sh_hdr is not None:
+            mt, tag = sock.sh_hdr.msg_type, sock.sh_hdr.send_time
         seq = self.log("MGR_WRITE_FAIL" if sock.side == "mgr" else "PEER_WRITE_FAIL", sock.idx,
-                       delivered, err)
+                       delivered, err, mt, tag if (tag is not None and tag >= 1.0e9) else None)
         if sock.side == "mgr":
-            self.wfails.append((seq, sock.idx, delivered, err))
+            self.wfails.append((seq, sock.idx, delivered, err, mt, tag))
             self.stats["write_fail"] += 1
             self.ends.append((seq, sock.idx, "wfail"))
 
